@@ -83,7 +83,7 @@ def _representatives():
         "OrdinalNumeric": [csh.OrdinalHyperparameter("rep_g", sequence=[1, 2.5, 4]), csh.OrdinalHyperparameter("rep_h", sequence=[9, 7])],
         "OrdinalOther": [csh.OrdinalHyperparameter("rep_i", sequence=["lo", "mid", "hi"]), csh.OrdinalHyperparameter("rep_j", sequence=["b", 1])],
         "Constant": [csh.Constant("rep_k", 5), csh.Constant("rep_l", "cst"), csh.Constant("rep_m", 2.5)],
-        "Other": [csh.NormalFloatHyperparameter("rep_n", mu=0.0, sigma=1.0), csh.NormalIntegerHyperparameter("rep_o", mu=0, sigma=3),
+        "Other": [csh.NormalFloatHyperparameter("rep_n", mu=0.0, sigma=1.0, lower=-3.0, upper=3.0), csh.NormalIntegerHyperparameter("rep_o", mu=0, sigma=3, lower=-9, upper=9),
                   csh.BetaFloatHyperparameter("rep_p", alpha=2.0, beta=3.0, lower=0.0, upper=1.0), csh.BetaIntegerHyperparameter("rep_q", alpha=2.0, beta=3.0, lower=0, upper=9)],
     }
     known = {"UniformIntegerHyperparameter", "UniformFloatHyperparameter", "CategoricalHyperparameter", "OrdinalHyperparameter", "Constant",
@@ -248,7 +248,7 @@ def build_obj(o):
     if c == "const":
         return csh.Constant(name, o["value"])
     if c == "normal":
-        return csh.NormalFloatHyperparameter(name, mu=0.0, sigma=1.0)
+        return csh.NormalFloatHyperparameter(name, mu=0.0, sigma=1.0, lower=-3.0, upper=3.0)
     raise ValueError(c)
 
 
@@ -597,6 +597,8 @@ def check_sampling(case):
                 return dict(res, ok=False, kind="corr", clause="inactive_value", detail=dict(name=name, want=first, got=[v for v in inactive if not _same(v, first)][:3]))
         tr = trs[j] if trs is not None else "configspace"
         dsig = dict(sig, dim=spec_desc(spec), transform=str(tr))
+        if spec[0] == 2:
+            dsig["mixed_types"] = len({a[0] for a in spec[1]}) > 1
         res["desc"].append("dim=%s/%s" % (spec_desc(spec), tr))
         draws = [enc_atom(v, toks, create=False) for v in col]
         code = m.call(F_OKSUPPORT, [spec, draws])
@@ -655,7 +657,8 @@ def check_quantile(case):
         cats = case["cats"]
         d = sks.Categorical(cats, transform="normalize")
         got = canon(d.inverse_transform([u])[0])
-        want = m.call(F_QCATNORM, [[enc_atom(c, toks) for c in cats], [num, den]])
+        # the model takes the categories in the label encoder's order (np.unique: sorted, for categories of one type) - an oracle
+        want = m.call(F_QCATNORM, [[enc_atom(c, toks) for c in sorted(cats)], [num, den]])
         if not want or want[0] != enc_atom(got, toks, create=False):
             return dict(res, ok=False, clause="q_cat_normalized", detail=dict(cats=cats, u=[num, den], impl=repr(got), model=want))
     return res
@@ -672,7 +675,9 @@ def gen_quantile(count):
                 yield dict(kind="int", lo=lo, hi=hi, u=[num, den])
             else:
                 k = rng.randint(2, 7)
-                yield dict(kind="cat", cats=["c%d" % j for j in range(k)], u=[num, den])
+                cats = ["c%d" % j for j in range(k)]
+                rng.shuffle(cats)
+                yield dict(kind="cat", cats=cats, u=[num, den])
     return gen
 
 
